@@ -16,7 +16,7 @@ RULE = ('T in {2,4,8} threads, each with its own engines, each converting its ow
         'language) items drawn from the statefulness pool of C05 (e-mail autolinks, notes, cross-references, tables, images, metadata, CriticMarkup, '
         'multi-slab document) and the corpus, all 12 formats incl. packages, random yields/sleeps between items derived from VERIF_SEED; library '
         'built with DISABLE_OBJECT_POOL and -fsanitize=thread. Oracle: (1) ThreadSanitizer (happens-before) reports nothing; (2) every thread\'s '
-        'output equals the output of the same item in a single-threaded run (packages under the UUID/date mask; random-anchor items not compared). '
+        'output equals the output of the same item in a single-threaded run (packages under the UUID/date mask; random-anchor items are not compared but must be self-consistent: every generated #fn:N / #<number> link has its id). '
         'Non-trivial: a run in which conversion intervals of >=2 threads overlapped and >=1 item used a stateful feature; distinct by (seed, T, stream).')
 ASSUMPTIONS = ['a happens-before detector only sees accesses that were executed in the sampled schedules; this is exploration, not a proof of race freedom',
                'overlap is measured with a monotonic clock for the evidence counter only, never for a verdict',
@@ -78,8 +78,12 @@ def same(fmt, a, b):
 def run_once(work, idx, rnd, docs_dir, ndocs, stateful_idx, T):
     n_items = rnd.randint(20, 120)
     items = []
+    heavy = rnd.random() < 0.25      # every item draws random anchors at the same time as the other threads
     for _ in range(n_items):
         d = rnd.choice(stateful_idx) if rnd.random() < 0.5 else rnd.randrange(ndocs)
+        if heavy:
+            items.append((rnd.randrange(T), ndocs - 1, 'html', EXTS[0] | EXT['RANDOM_FOOT'] | (EXT['RANDOM_LABELS'] if rnd.random() < 0.5 else 0), 0))
+            continue
         items.append((rnd.randrange(T), d, rnd.choice(FMTS), rnd.choice(EXTS), rnd.randrange(7)))
     sf = os.path.join(work, 'stream%d.txt' % idx)
     with open(sf, 'w') as fh:
@@ -104,6 +108,15 @@ def run_once(work, idx, rnd, docs_dir, ndocs, stateful_idx, T):
     res['overlapped'] = int(m.group(1)) if m else 0
     for ln, (t, d, f, e, l) in enumerate(items):
         if e & (EXT['RANDOM_FOOT'] | EXT['RANDOM_LABELS']):
+            # declared-random anchors are not compared byte for byte, but a document must stay consistent with ITSELF: every generated
+            # #fn:N / #<number> link of the threaded run has an element with that id (anchors drawn from state shared between threads break this)
+            if f == 'html' and ln in po:
+                ids = set(re.findall(rb'id="([^"]+)"', po[ln]))
+                for h in re.findall(rb'href="#(fn:\d+|cn:\d+|gn:\d+|\d+)"', po[ln]):
+                    if h not in ids:
+                        res['mismatches'].append((ln, t, d, f, e, l))
+                        res['dangling'] = h.decode()
+                        break
             continue
         if ln not in so or ln not in po or not same(f, so[ln], po[ln]):
             res['mismatches'].append((ln, t, d, f, e, l))
@@ -125,6 +138,9 @@ def _execute(tier, nruns, seed, Ts, replay_path=None):
     known = common.Known()
     work = common.scratch_dir('c17')
     docs = list(c05.STATEFUL) + [c05.MULTISLAB[:20000]] + [d for d in c05.corpus() if len(d) < 3000][:40]
+    # a document whose every anchor is generated: 12 footnotes, headings with title cross-references (for the random-anchor streams)
+    docs.append(''.join('# Head %d\n\ntext[^n%d] more[^n%d] see [Head %d][]\n\n' % (i, 2 * i, 2 * i + 1, (i + 1) % 6) for i in range(6))
+                + ''.join('[^n%d]: note %d\n\n' % (i, i) for i in range(12)))
     stateful_idx = list(range(len(c05.STATEFUL) + 1))
     dd = os.path.join(work, 'docs')
     os.makedirs(dd)
@@ -155,7 +171,10 @@ def _execute(tier, nruns, seed, Ts, replay_path=None):
             for sig, rep in r['tsan'].items():
                 failures.setdefault(sig, rep)
             for mm in r['mismatches'][:1]:
-                failures.setdefault('output-differs-from-serial:%s' % mm[3], 'item %r' % (mm,))
+                if r.get('dangling') and mm[4] & (EXT['RANDOM_FOOT'] | EXT['RANDOM_LABELS']):
+                    failures.setdefault('random-anchors:dangling-under-threads', 'item %r: href="#%s" has no element with that id in the threaded run' % (mm, r['dangling']))
+                else:
+                    failures.setdefault('output-differs-from-serial:%s' % mm[3], 'item %r' % (mm,))
     rcode = 0
     import json
     for sig, detail in failures.items():
